@@ -20,3 +20,50 @@ reg("C05",
     "(case, schedule) in which a sequential node ran while a node that is neither its ancestor nor its descendant took part",
     "N<=3: SEQ* x RES* x mc{1,2,3} x prio{0,desc} x {DAG,AsyncDAG}; N=4: SEQm x RESm x mc{2,3} x DAG; ties<=1",
     "N<=3 as quick with unbounded ties; N=4: SEQ* x RESm x mc{1,2,3} x prio{0,desc} x both flavours; N=5: SEQm x {t*, ta*} x mc{2,3}; ties unbounded N<=4, <=2 N=5")
+
+reg("C02",
+    "all labelled DAG shapes x assignment of a dependency form to every edge (positional, keyword, indexed positional, indexed keyword, "
+    "activation flag, indexed activation flag; flag truthy and falsy) x resources x sequential x priorities x max_concurrency x flavour; "
+    "EVERY completion order and tie-break. non-trivial = (case, schedule) in which a node with a participating dependency was entered",
+    "N<=3: all kind assignments x RESm x SEQ{none,first} x prio{0,desc} x mc{1,2,3} x both flavours; N=4: rotating kinds x 4 resource patterns x mc{2,3}; ties<=1",
+    "N<=3 with SEQm and unbounded ties; N=4: 3 rotations x RESm x SEQm x 3 priority vectors x mc{1,2,3} x both flavours; N=5: rotating kinds, 2 resource patterns, mc{2,3}, ties<=1")
+reg("C04",
+    "all labelled DAG shapes x ALL 3^N resource assignments x max_concurrency 1..3 x sequential menu x flavour; EVERY completion order; "
+    "plus the build-time validation of max_concurrency. non-trivial = (case, schedule) with more pooled nodes than max_concurrency, or mixing main-thread and pooled nodes",
+    "N<=3: RES* x mc{1,2,3} x SEQm x both flavours, ties<=1; N=4: shapes with <=3 edges x RES* x mc{1,2,3}, DAG flavour, ties 0",
+    "N<=3 unbounded ties; N=4: all shapes x RES* x mc x SEQm x both flavours, ties<=2; N=5: shapes with <=2 edges x 5 resource patterns x mc{2,3}")
+reg("C08",
+    "C05's space (all sequential subsets, all resources) and a priority slice; EVERY completion order; at every blocking wait of every schedule the "
+    "idle predicate (max_concurrency in flight, or nothing ready, or a sequential node running / best candidate) is evaluated with the reference Ready set; "
+    "an ALL_COMPLETED wait is re-evaluated after each single completion. non-trivial = (case, schedule) with a blocking wait entered below max_concurrency",
+    "N<=3: SEQ* x RES* x mc{1,2,3} x prio{0,desc} x both flavours, ties<=1; N=4: 3 sequential patterns x 4 resource patterns x mc{2,3} x prio{0,desc}, ties 0",
+    "N<=3 unbounded ties; N=4: SEQ* x RESm x mc{2,3} x PRIOm x both flavours, ties<=2; N=5: shapes <=4 edges x {t*,a*} x mc{2,3}",
+    ["known finding (known_findings.json): with thread and async-thread nodes both in flight the scheduler waits for one completion of each kind"])
+
+reg("C03",
+    "five families, each with EVERY completion order: (A) all shapes x every dependency form per edge (flags truthy and falsy) x resources x mc x flavour; "
+    "(B) all shapes x single target / root / exclude selections; (C) one decorated function on 2-3 call sites; (D) every valid placement of debug nodes with RUN_DEBUG_NODES off and on; "
+    "(E) every valid placement of setup nodes after 0, 1, 2 earlier calls on the same instance. Oracle: entries per call site = 1 for the reference set, 0 for every other node. "
+    "non-trivial = (case, schedule) where at least one node must run and at least one must not (or a function is reused)",
+    "A: N<=3; B: N<=4; C: N<=3; D: N<=4 (N=4: <=3 edges); E: N<=3; ties<=1",
+    "same families, unbounded ties for N<=3, two kind rotations in B")
+reg("C06",
+    "all labelled shapes x ALL priority vectors over {-1,0,2} x sequential menu x {all thread, all main-thread, alternating thread/async-thread} x max_concurrency x "
+    "{whole DAG, each single target, each single root, each single exclude}; EVERY completion order and tie-break; at every dispatch the started node is compared with the "
+    "reference Ready set under the reference compound priority (own + distinct descendants in the FULL DAG). non-trivial = (case, schedule) with a dispatch taken while two ready nodes had different reference compound priorities",
+    "N<=3: PRIO* x SEQ{none,first} x 3 resource patterns x mc{1,2,3} x SELm (selections with mc<=2), ties<=1; N=4: PRIOm x 2 resource patterns x mc{1,2} x {whole,targets,roots}, ties 0",
+    "N<=3: PRIO* x SEQm x mc{1,2,3} x SELm, unbounded ties; N=4: PRIO* x 3 sequential patterns x 3 resource patterns x mc{1,2,3} x SELm, ties<=1")
+reg("C14",
+    "all labelled shapes x every choice of 1 or 2 failing nodes x ALL resources of the failing nodes (menu on the rest) x max_concurrency x flavour x exception type x call location known / unknown; "
+    "EVERY completion order, tie-break and iteration order of a done batch that contains a failure. Oracle: exception shape (type, node id, file:line, __cause__), no dependent of a failed node entered, "
+    "no dispatch and no entry after the failure became observable, no internal error. non-trivial = (case, schedule) in which a sibling was in flight or ready when the failure was observed",
+    "N<=3 all shapes, N=4 shapes with <=3 edges and single failures; ties<=1; done-batch orders all",
+    "N<=4 all shapes, 1-2 failing nodes, both flavours; unbounded ties for N<=3")
+
+reg("C09",
+    "all shapes x ALL resource assignments x sequential menu x max_concurrency (incl. 1 with sequential nodes) x 0-2 failing nodes x activation-flag chains (all flags falsy) x flavour, "
+    "plus executor calls with single selections and setup() calls; EVERY completion order. Oracle: the call returns or raises; the scheduler loop never iterates "
+    "more than 64 times without an event (spin), never blocks with nothing to wait for (watchdog), never returns while a selected active node has not run, never raises without a node failure; "
+    "build-time: every directed graph with a cycle is refused. non-trivial = schedule with >=2 nodes in flight, a failure next to other nodes, or a deactivation",
+    "N<=3: RES* x SEQm x mc{1,2,3} x fail{none,1,2}; N=4: shapes <=4 edges x 5 resource patterns x mc{1,2} x fail{none,1}; digraphs on <=3 nodes; ties<=1",
+    "N<=3 unbounded ties; N=4 all shapes, fail{none,1,2}; digraphs on <=4 nodes")
